@@ -65,6 +65,10 @@ pub struct KvCheck {
 const ALPHA: [u8; 4] = [0x00, 0x01, 0x61, 0xFF];
 
 fn gen_key(g: &mut Gen) -> Vec<u8> {
+    // very rarely: a key around 64 KiB (the largest length a two-byte length field holds, and one more)
+    if g.chance(1, 250) {
+        return vec![0x61; 65535 + g.below(3)];
+    }
     // 0: short key over the collision alphabet; rarely a long or arbitrary key
     match g.weighted(&[20, 1, 1]) {
         0 => g.bytes_from(3, &ALPHA),
@@ -557,7 +561,7 @@ impl Check for KvCheck {
         Spec {
             id: "C06",
             level: "exploration",
-            rule: "generated: base content (0-12 entries over keys built from {00,01,61,FF}, length 0-3, plus long/random keys) and a nested program of set/remove/get/range/sweep/burst(2-600 unprobed writes over 1-12 keys)/push(commit|discard|transactional Ok|Err) ops, compared after every op with a stack of BTreeMaps; a case is non-trivial when it issues a range at depth>=1 whose interval contains an overlay-set key, an overlay-deleted base key and an untouched base key and returns at least one entry; distinct = distinct serialised case",
+            rule: "generated: base content (0-12 entries over keys built from {00,01,61,FF}, length 0-3, plus long/random keys, very rarely 65535-65537 bytes) and a nested program of set/remove/get/range/sweep/burst(2-600 unprobed writes over 1-12 keys)/push(commit|discard|transactional Ok|Err) ops, compared after every op with a stack of BTreeMaps; a case is non-trivial when it issues a range at depth>=1 whose interval contains an overlay-set key, an overlay-deleted base key and an untouched base key and returns at least one entry; distinct = distinct serialised case",
             assumptions: vec![
                 "values are non-empty (MemoryStorage::set documents a panic for empty values)",
                 "MockStorage (cosmwasm-std MemoryStorage) is a correct ordered map (bottom layer)",
